@@ -67,8 +67,9 @@ Record config := mkCfg {
   multiUser : bool;
   canShift : bool;     (* the model supplies a shift function *)
   canPartial : bool;   (* the cache can erase part of a sequence *)
-  canResume : bool;    (* CanResume answers true (always, without a sliding window) / false (a cache that cannot) *)
-  eosTok : Z           (* -1: none *)
+  canResume : bool;    (* false: a cache front that never lets a sequence be resumed *)
+  eosTok : Z;          (* -1: none *)
+  window : option Z    (* Some w: sliding-window cache (kvcache.NewSWACache w); None: plain causal cache *)
 }.
 
 Definition kv_remove_range (cfg : config) (kv : kvcache) (s : nat) (b e : Z) : option kvcache :=
@@ -81,6 +82,44 @@ Definition kv_remove_range (cfg : config) (kv : kvcache) (s : nat) (b e : Z) : o
 Definition kv_remove_tail (cfg : config) (kv : kvcache) (s : nat) (b : Z) : option kvcache :=
   if negb (canPartial cfg) && negb (b =? 0) then None else Some (kv_trunc kv s b).
 
+
+(** ** sliding window (kvcache.NewSWACache): what changes
+    - StartForward first evicts, for every sequence of the batch, the cells more than [w] positions before the
+      lowest position the batch holds for that sequence (updateSlidingWindow);
+    - the mask additionally hides cells more than [w] positions before the entry (buildMask);
+    - CanResume(seq, pos) answers whether the [w] positions before [pos] are all still stored and [pos] does not
+      reach back before the window of the latest stored position. *)
+Fixpoint low_pos (b : list entry) (s : nat) : option Z :=
+  match b with
+  | [] => None
+  | e :: r => if Nat.eqb s (e_seq e)
+              then match low_pos r s with Some p => Some (Z.min (e_pos e) p) | None => Some (e_pos e) end
+              else low_pos r s
+  end.
+Definition kv_evict (cfg : config) (kv : kvcache) (b : list entry) : kvcache :=
+  match window cfg with
+  | None => kv
+  | Some w =>
+      map (fun c => mkCell (cpos c) (ctok c)
+                      (filter (fun s => match low_pos b s with Some p => negb (cpos c <? p - w) | None => true end) (cseqs c))) kv
+  end.
+Definition visible_c (cfg : config) (kv : kvcache) (s : nat) (p : Z) : list (Z * tok) :=
+  match window cfg with
+  | None => visible kv s p
+  | Some w => filter (fun e => p - w <=? fst e) (visible kv s p)
+  end.
+Definition swa_can_resume (w : Z) (kv : kvcache) (s : nat) (pos : Z) : bool :=
+  match view kv s with
+  | [] => false
+  | v =>
+      let last := fold_left (fun m e => Z.max m (fst e)) v (-1) in
+      let pws := Z.max 0 (pos - w) in
+      let lws := Z.max 0 (last - w) in
+      if pws <? lws then false
+      else zlen (filter (fun e => (pws <=? fst e) && (fst e <? pos)) v) =? pos - pws
+  end.
+Definition can_resume (cfg : config) (kv : kvcache) (s : nat) (pos : Z) : bool :=
+  canResume cfg && match window cfg with None => true | Some w => swa_can_resume w kv s pos end.
 
 (** * 3. InputCache *)
 Record slot := mkSlot { s_inputs : list tok; s_inuse : bool; s_last : nat (* 0: zero time *) }.
@@ -172,7 +211,7 @@ Definition load_cache_slot (cfg : config) (clock : nat) (sl : list slot) (kv : k
   | Err => Err | Panic => Panic
   | Ok (sl1, kv1, i, n) =>
       let n1 := if (n =? length prompt)%nat then Nat.pred n else n in   (* prompt is never empty here *)
-      let n2 := if (0 <? n1)%nat && negb (canResume cfg) then O else n1 in
+      let n2 := if (0 <? n1)%nat && negb (can_resume cfg kv1 i (Z.of_nat n1)) then O else n1 in   (* asked AFTER the decrement *)
       let '(kv2, n3) := match kv_remove_tail cfg kv1 i (Z.of_nat n2) with
                         | Some kv' => (kv', n2)
                         | None => (kv_trunc kv1 i 0, O)    (* Remove(0, MaxInt32) does not fail *)
@@ -435,9 +474,9 @@ Section WithNetwork.
   Variable F : list (Z * tok) -> tok.
 
   Definition outputs_of (b : list entry) : list entry := filter e_out b.
-  Definition sample_at (kv' : kvcache) (b : list entry) (ib : nat) : tok * list (Z * tok) :=
+  Definition sample_at (cfg : config) (kv' : kvcache) (b : list entry) (ib : nat) : tok * list (Z * tok) :=
     match nth_error (outputs_of b) ib with
-    | Some e => let vis := sort_vis (visible kv' (e_seq e) (e_pos e)) in (F vis, vis)
+    | Some e => let vis := sort_vis (visible_c cfg kv' (e_seq e) (e_pos e)) in (F vis, vis)
     | None => (0, [])                                      (* out-of-range slice: not reachable, see proofs *)
     end.
 
@@ -454,7 +493,7 @@ Section WithNetwork.
     match q_inputs q with
     | _ :: _ => QOk s1 (Some q1) []
     | [] =>
-        let '(t, vis) := sample_at kv' b (q_ibatch q) in
+        let '(t, vis) := sample_at cfg kv' b (q_ibatch q) in
         let np := q_npredicted q + 1 in
         if (0 <=? eosTok cfg) && (t =? eosTok cfg) then
           QOk (released s1) None [EvSample (q_req q) t vis; EvDone (q_req q) DoneStop]
@@ -501,8 +540,8 @@ Section WithNetwork.
 
   Definition all_nil (qs : list (option seqst)) : bool := forallb (fun q => match q with None => true | _ => false end) qs.
 
-  Definition chosen_of (kv' : kvcache) (b : list entry) : list tok :=
-    map (fun e => F (sort_vis (visible kv' (e_seq e) (e_pos e)))) (outputs_of b).
+  Definition chosen_of (cfg : config) (kv' : kvcache) (b : list entry) : list tok :=
+    map (fun e => F (sort_vis (visible_c cfg kv' (e_seq e) (e_pos e)))) (outputs_of b).
 
   Definition process_batch (cfg : config) (st : state) : state * ores :=
     if all_nil (seqs st) then (st, RIdle)
@@ -518,11 +557,11 @@ Section WithNetwork.
           match p_batch p with
           | [] => (mkSt (p_slots p) (p_kv p) (p_seqs p) next (clock st) (nreq st) (p_log p), RStepped [] [])
           | _ =>
-              let kv' := kv_forward (p_kv p) (p_batch p) in
+              let kv' := kv_forward (kv_evict cfg (p_kv p) (p_batch p)) (p_batch p) in
               match post_all cfg kv' (p_batch p) (p_slots p) (p_seqs p) with
               | None => (st, RPanic)
               | Some (sl, qs, ev) =>
-                  (mkSt sl kv' qs next (clock st) (nreq st) (p_log p ++ ev), RStepped (p_batch p) (chosen_of kv' (p_batch p)))
+                  (mkSt sl kv' qs next (clock st) (nreq st) (p_log p ++ ev), RStepped (p_batch p) (chosen_of cfg kv' (p_batch p)))
               end
           end
       end.
